@@ -296,6 +296,8 @@ def check_dispatch(files, cpp, classes, nss, funcs, boost, module="mod"):
                 rc = rc[1:]                        # in[0] is the object
             if gc is not None and None not in rc and len(gc) == len(rc) and gc != rc and not (kind == "constructor" and not gc):
                 problems.append("id %d: the call site guards for %r but routine %s unwraps %r" % (s["id"], gc, rn, rc))
+    if classes is None:
+        return problems                    # structural agreement only: the caller has no declaration list (accumulated toolbox)
     want = sorted(map(repr, expected_roles(classes, nss, funcs, boost)))
     got = sorted(map(repr, [r for r in got_roles if r[0] not in ("Other", "Root")]))
     if got != want:
